@@ -42,19 +42,33 @@
         `C10_tcp_tsig_always_fits`: over TCP, from the writer `handle_message` sets up, the
         truncation branch is never taken (question ≤ 12+255+6, OPT 11, TSIG RR ≤ 255+255+64).
 
+   (f) **lifted to the response octets** (`Proofs/FinishTsig`: `Writer::finish` read backwards in every
+        compression mode; `Proofs/ServerSigned`):
+        `C10_authenticated_nodata_octets` — an authenticated request that gets a no-data verdict is
+        answered with header ++ question ++ OPT (iff reached) ++ TSIG record, the TSIG record last
+        (TYPE 250, CLASS ANY, TTL 0, RDATA = algorithm ‖ time ‖ fudge 300 ‖ MAC ‖ original ID ‖ error 0 ‖
+        no other data), its MAC being — for a lower-case key name — the HMAC under the request's key of
+        the RFC 8945 §4.3 response digest input over exactly the octets before it;
+        `C10_authenticated_answer_octets` — the same for answers from a loaded zone (whatever the
+        zone answers): the response ends with that TSIG record, MAC over everything before it;
+        `C10_error_response_octets` — a request that is not authenticated gets header(NOTAUTH, or
+        FORMERR for a MAC of a size not allowed) ++ question ++ OPT ++ TSIG record and nothing else: for
+        BADKEY and BADSIG the record is unsigned (MAC size 0), for BADTIME it is signed in response
+        mode and carries the server time as other data.
+
   `C10_full` (below) is the end-to-end statement "the executable C10 audit finds nothing wrong with
-  the response the model produces, for every configuration, request and clock".  Proved: (a)–(e),
-  which are statements about the writer *state* the TSIG branch leaves behind.  Not proved (gap of
-  `C10_partial`): the lifting from that state to the response *octets* — `Writer::finish` emitting the
-  recorded TSIG RR last with the fields of the prepared RR, an independent decoder reading them
-  back, and the answer phase (`handle_query`) not touching the TSIG bookkeeping — which is the
-  writer refinement of C12 and the frame property of the answer phase (C05); and that HMAC-SHA1/256
-  tags have 20 / 32 octets (`hlen`, compared with the `hmac` crate on every case).  These gaps are
-  covered by the correspondence check and the audit of the implementation's own octets.
+  the response the model produces, for every configuration, request and clock".  Proved: (a)–(f).
+  Not proved (gap of `C10_partial`): `C10_full` itself, i.e. that the *executable audit* — which
+  decodes the response with an independent decoder and re-derives plain / signed answers — returns
+  the empty list; (f) gives the octets the audit would look at, except that the TSIG record's owner
+  is given as `NameShape` (the key name literally, or a literal prefix plus a compression pointer):
+  that a compressed owner decodes to the key name is the writer's compression theorem (C12/C13).
+  When the reply's TSIG does not fit (UDP, 512 octets) the response is TC / NOERROR without TSIG: (e).
 -/
 import QV.Properties.C11
 import QV.Proofs.ServerTsig
 import QV.Spec.ServerTsig
+import QV.Proofs.ServerSigned
 
 namespace QV.C10
 open QV QV.Server QV.Writer QV.Tsig QV.ServerTsig
@@ -352,6 +366,115 @@ theorem C10_partial (keys : List Key) (s : State) (hs : 12 ≤ s.octets.size) (r
           (obtain ⟨s2, h2⟩ := tbl.none_out
            exact ⟨by rw [h2]; simp, fun x s' h => by rw [h2] at h; cases h⟩)
       · exact absurd hvr hv
+
+/-! ## (f) lifted to the response octets -/
+
+open QV.ServerScan in
+/-- **an authenticated request with a no-data verdict, on the octets.**  The response is
+    `signedPrefix` (header with the RCODE, question, OPT iff reached) followed by the TSIG record and
+    nothing else; the MAC in it is `macFn` of exactly `signedPrefix`, and for a lower-case key name
+    that is the HMAC, under the request's key, of the RFC 8945 §4.3 response digest input. -/
+theorem C10_authenticated_nodata_octets (cfg : Cfg) (tr : Transport) (now bufLen : Nat) (req : Bytes)
+    (hbuf : minBuf tr cfg.payload ≤ bufLen) (hpay : 512 ≤ cfg.payload) (hreq : req.size ≤ Rdata.USIZE_MAX)
+    (hr : (Spec.Server.specScanWith (catKind cfg) cfg.payload req).respond = true)
+    (hv : (Spec.Server.specScanWith (catKind cfg) cfg.payload req).verdict = .tsigReached) :
+    ∃ (t : ReadTsigRr) (mw : Bytes) (r' : Reader.Reader), r'.octets = req ∧ r'.cursor ≤ req.size ∧
+      ∀ r'' S, tsigAfter cfg now t mw r' (preTsigState cfg tr bufLen req) = (.ok (some r''), S) →
+      ∀ v, (v = Spec.Server.Verdict.formErr ∨ v = .notImp ∨ v = .refused ∨ v = .servFailZone) →
+        endVerdict (catKind cfg) req.size (Spec.Server.specScanWith (catKind cfg) cfg.payload req).question
+          r'.cursor ((req.getD 2 0).toNat / 8 % 16) = v →
+      ∀ b, handleMessage cfg tr now bufLen req = .ok (some b) →
+        ∃ nowT alg key kn, TimeSigned.tryFromUnix now = some nowT ∧
+          Algorithm.fromName t.algorithm = some alg ∧ findKey cfg.keys t.keyName alg = some key ∧
+          WName.parse t.keyName = some (kn, []) ∧ verifyRequest realHmac t mw.toList alg key.secret nowT = .ok () ∧
+          ∃ oe, NameShape kn oe ∧
+            b.toList =
+              signedPrefix req cfg.payload (Spec.Server.specScanWith (catKind cfg) cfg.payload req)
+                (Spec.Server.verdictRcode v).1 ++
+              tsigRecordOctets oe (respTsig alg key kn t nowT)
+                (some (macFn (respTsig alg key kn t nowT)
+                  (signedPrefix req cfg.payload (Spec.Server.specScanWith (catKind cfg) cfg.payload req)
+                    (Spec.Server.verdictRcode v).1))) ∧
+            ((∀ l ∈ kn.labels, l.map Spec.Tsig.lower = l) → t.mac.length ≤ 65535 →
+              macFn (respTsig alg key kn t nowT)
+                  (signedPrefix req cfg.payload (Spec.Server.specScanWith (catKind cfg) cfg.payload req)
+                    (Spec.Server.verdictRcode v).1) =
+                realHmac (ofWriterAlg (toWriterAlg alg)) key.secret
+                  (Spec.Tsig.digestInput .response
+                    (signedPrefix req cfg.payload (Spec.Server.specScanWith (catKind cfg) cfg.payload req)
+                      (Spec.Server.verdictRcode v).1)
+                    (prepOf kn t nowT 0).originalId (respVars (prepOf kn t nowT 0) (ofWriterAlg (toWriterAlg alg)))
+                    t.mac)) := by
+  obtain ⟨t, mw, r', h1, h2, h3⟩ := signed_noData_response cfg tr now bufLen req hbuf hpay hreq hr hv
+  refine ⟨t, mw, r', h1, h2, fun r'' S hT v hvv hev b hb => ?_⟩
+  obtain ⟨nowT, alg, key, kn, e1, e2, e3, e4, e5, oe, sT, _, hsh, _, hbl⟩ := h3 r'' S hT v hvv hev b hb
+  refine ⟨nowT, alg, key, kn, e1, e2, e3, e4, e5, oe, hsh, hbl, fun hl hmac => ?_⟩
+  exact macFnWith_eq_rfc realHmac (respTsig alg key kn t nowT) _ (toWriterAlg alg) t.mac key.secret rfl
+    (prepOf_wf kn t nowT 0 hl (by omega)) hmac (signedPrefix_msgOk _ _ _ _)
+    (fun d => by rw [realHmac_length]; cases (ofWriterAlg (toWriterAlg alg)) <;> decide)
+
+open QV.ServerScan in
+/-- **an authenticated request that a loaded zone answers, on the octets**: whatever the zone
+    answers, the response is `pre ++ TSIG record` with the MAC `macFn` of exactly `pre`, the record
+    being the last thing in the message; when the scan reached an OPT, `pre` ends with the one OPT
+    record. -/
+theorem C10_authenticated_answer_octets (cfg : Cfg) (tr : Transport) (now bufLen : Nat) (req : Bytes)
+    (hbuf : minBuf tr cfg.payload ≤ bufLen) (hpay : 512 ≤ cfg.payload) (hreq : req.size ≤ Rdata.USIZE_MAX)
+    (hr : (Spec.Server.specScanWith (catKind cfg) cfg.payload req).respond = true)
+    (hv : (Spec.Server.specScanWith (catKind cfg) cfg.payload req).verdict = .tsigReached) :
+    ∃ (t : ReadTsigRr) (mw : Bytes) (r' : Reader.Reader), r'.octets = req ∧ r'.cursor ≤ req.size ∧
+      ∀ r'' S, tsigAfter cfg now t mw r' (preTsigState cfg tr bufLen req) = (.ok (some r''), S) →
+        endVerdict (catKind cfg) req.size (Spec.Server.specScanWith (catKind cfg) cfg.payload req).question
+          r'.cursor ((req.getD 2 0).toNat / 8 % 16) = .answer →
+      ∀ b, handleMessage cfg tr now bufLen req = .ok (some b) →
+        ∃ nowT alg key kn, TimeSigned.tryFromUnix now = some nowT ∧
+          Algorithm.fromName t.algorithm = some alg ∧ findKey cfg.keys t.keyName alg = some key ∧
+          WName.parse t.keyName = some (kn, []) ∧ verifyRequest realHmac t mw.toList alg key.secret nowT = .ok () ∧
+          ∃ pre oe, NameShape kn oe ∧
+            b.toList = pre ++ tsigRecordOctets oe (respTsig alg key kn t nowT)
+              (some (macFn (respTsig alg key kn t nowT) pre)) ∧
+            ((Spec.Server.specScanWith (catKind cfg) cfg.payload req).edns = true →
+              ∃ x upper, pre = x ++ Writer.optRecord ⟨cfg.payload, upper⟩) := by
+  obtain ⟨t, mw, r', h1, h2, h3⟩ := signed_answer_response cfg tr now bufLen req hbuf hpay hreq hr hv
+  refine ⟨t, mw, r', h1, h2, fun r'' S hT hev b hb => ?_⟩
+  obtain ⟨nowT, alg, key, kn, e1, e2, e3, e4, e5, pre, oe, hsh, hbl, hopt, _⟩ := h3 r'' S hT hev b hb
+  exact ⟨nowT, alg, key, kn, e1, e2, e3, e4, e5, pre, oe, hsh, hbl, hopt⟩
+
+open QV.ServerScan in
+/-- **a request that is not authenticated, on the octets** (reply TSIG fits).  `tsigStopReply` is the
+    decision table (a): RCODE NOTAUTH with BADKEY (unknown algorithm / key) or BADSIG (wrong MAC), or
+    FORMERR with BADSIG (MAC size not allowed) — all *unsigned*, i.e. an empty MAC — or NOTAUTH with
+    BADTIME, *signed* in response mode.  The response is header ++ question ++ OPT ++ that TSIG record,
+    the TSIG record last, no answer or authority data. -/
+theorem C10_error_response_octets (cfg : Cfg) (tr : Transport) (now bufLen : Nat) (req : Bytes)
+    (hbuf : minBuf tr cfg.payload ≤ bufLen) (hpay : 512 ≤ cfg.payload) (hreq : req.size ≤ Rdata.USIZE_MAX)
+    (hr : (Spec.Server.specScanWith (catKind cfg) cfg.payload req).respond = true)
+    (hv : (Spec.Server.specScanWith (catKind cfg) cfg.payload req).verdict = .tsigReached) :
+    ∃ (t : ReadTsigRr) (mw : Bytes) (r' : Reader.Reader), r'.octets = req ∧ r'.cursor ≤ req.size ∧
+      ∀ nowT kn an rc mode rr, TimeSigned.tryFromUnix now = some nowT →
+        WName.parse t.keyName = some (kn, []) → WName.parse t.algorithm = some (an, []) →
+        tsigStopReply realHmac cfg.keys nowT t mw.toList kn an = some (rc, mode, rr) →
+        TsigFits (preTsigState cfg tr bufLen req) mode rr →
+        ∀ b, handleMessage cfg tr now bufLen req = .ok (some b) →
+          SignedNoData cfg.payload (Spec.Server.specScanWith (catKind cfg) cfg.payload req) rc b ∧
+          ∃ oe, NameShape rr.keyName oe ∧
+            b.toList =
+              signedPrefix req cfg.payload (Spec.Server.specScanWith (catKind cfg) cfg.payload req) rc ++
+              tsigRecordOctets oe ⟨mode, reservedLen mode rr, rr⟩
+                (finishMac macFn ⟨mode, reservedLen mode rr, rr⟩
+                  (signedPrefix req cfg.payload (Spec.Server.specScanWith (catKind cfg) cfg.payload req) rc)) := by
+  obtain ⟨t, mw, r', h1, h2, h3⟩ := tsig_error_response cfg tr now bufLen req hbuf hpay hreq hr hv
+  refine ⟨t, mw, r', h1, h2, fun nowT kn an rc mode rr hnow hkn han hrep hfit b hb => ?_⟩
+  obtain ⟨oe, sT, _, hsh, _, hbl⟩ := h3 nowT kn an rc mode rr hnow hkn han hrep hfit b hb
+  have hrc : rc < 16 := by rcases tsigStopReply_rc hrep with rfl | rfl <;> omega
+  exact ⟨signedNoData_of_list req cfg.payload _ rc hrc oe _ _ hsh b hbl, oe, hsh, hbl⟩
+
+/-- the unsigned replies carry an empty MAC; the BADTIME reply is signed -/
+theorem C10_unsigned_mac_empty (an : WName) (rl : Nat) (rr : TsigRr) (pre : List UInt8) :
+    finishMac macFn ⟨.unsigned an, rl, rr⟩ pre = none := rfl
+
+theorem C10_badtime_mac_signed (a : Writer.Alg) (m k : List UInt8) (rl : Nat) (rr : TsigRr) (pre : List UInt8) :
+    finishMac macFn ⟨.response a m k, rl, rr⟩ pre = some (macFn ⟨.response a m k, rl, rr⟩ pre) := rfl
 
 /-! ## non-vacuity: concrete instances of the hypotheses used above -/
 
